@@ -649,3 +649,31 @@ func viaFrames(info *types.Info, e ast.Expr) ast.Expr {
 	}
 	return e
 }
+
+// onBehalfOf: f is one of the audited functions, or a function new to the rules that only such functions call
+// (transitively, three levels): an extracted piece of an audited function acts on its behalf.
+func onBehalfOf(cg *CG, f *types.Func, audited func(*types.Func) bool) bool {
+	var rec func(f *types.Func, depth int) bool
+	rec = func(f *types.Func, depth int) bool {
+		if f == nil {
+			return false
+		}
+		if audited(f) {
+			return true
+		}
+		if !isNewFunc(f) || depth >= 3 {
+			return false
+		}
+		cs := cg.callersOf(f)
+		if len(cs) == 0 {
+			return false
+		}
+		for _, c2 := range cs {
+			if c2 == f || !rec(c2, depth+1) {
+				return false
+			}
+		}
+		return true
+	}
+	return rec(f, 0)
+}
